@@ -51,6 +51,12 @@ thorough: tiny + default-size).  Per configuration (mc/c02_core.py), all exhaust
     Instances: a twin constructed before, and an instance constructed after, the first instance was driven must
     return the graph's values for the five calls (quick tier: decided by identity of the traced program with the
     driven instance's program when they are identical, else and always in the thorough tier by compiling).
+(4) shared components (mc/c02_shared.py): for every shipped generator class used by the catalogue, two environments
+    built around ONE generator object (and, for Sudoku's DatabaseGenerator, two generators built from ONE caller-owned
+    int32 database array) are driven through all sequences of length <= 2 (3 thorough, cheap-eager families) over
+    {a.reset(k0), b.reset(k1), jit(a.reset)(k1), a.step(s0,a0)}; every result must equal the same call on environments
+    whose components are their own, earlier results must stay readable and unchanged, the shared argument objects
+    must be unmodified.  Signatures `<family>:shared-component-couples-instances`, `constructor-argument-mutated`.
 Auxiliary: `jax.make_jaxpr(env.step / env.reset).effects` must be empty.
 An `UnexpectedTracerError` anywhere (a tracer kept on `self`/a global by one trace, read by a later one) is the
 violation `<family>:python-state-leaks-tracer`; `lax.scan` refusing the step (carry type changes) is `scan-raises`.
@@ -115,7 +121,7 @@ ORDER = ["bin_pack", "mmst", "robot_warehouse", "rubiks_cube", "pac_man", "lbf",
 REQUIRED = ["n_jit", "n_vmap", "n_vmap1", "n_vmap2", "n_vmap7", "n_scan", "n_scan_full", "n_eager",
             "n_reset_jit", "n_reset_vmap", "n_reset_eager", "n_histories", "n_history_eager_calls",
             "n_trace_probes", "n_argument_checks", "n_instance_calls", "n_effect_checks", "n_held_rechecks",
-            "n_reset_list_vs_vmap", "n_native_resets", "n_native_steps"]
+            "n_reset_list_vs_vmap", "n_native_resets", "n_native_steps", "n_shared_histories"]
 
 
 def configurations(tier: str) -> List[Dict[str, str]]:
@@ -152,10 +158,19 @@ def main(tier: str, seed: int) -> int:
         "VERIF_SEED only rotates which elements of T / which keys get the eager re-execution",
     ]
     tasks = [("mc.c02_core", "check_config", dict(tier=tier, seed=seed, **c)) for c in configurations(tier)]
+    from mc import c02_shared
+
+    only = os.environ.get("VERIF_C02_FAMILIES")
+    shared = [e for e in c02_shared.entries() if not only or e["family"] in only.split(",")]
+    slow_first = sorted(shared, key=lambda e: e["family"] not in c02_core.SLOW_HISTORY)
+    tasks = tasks[:4] + [("mc.c02_shared", "check_entry", dict(entry=e, tier=tier, seed=seed, model=e["name"]))
+                         for e in slow_first] + tasks[4:]
     run_tasks(rep, tasks)
     rep.require_positive(*REQUIRED)
     per = rep.coverage["per_model"]
     for m in per:  # every configuration must have exercised every mode
+        if m.get("kind") == "shared-component":
+            continue
         modes = m.get("modes") or {}
         for k in ("n_jit", "n_vmap", "n_scan", "n_eager", "n_reset_eager", "n_histories", "n_trace_probes",
                   "n_held_rechecks"):
@@ -172,4 +187,8 @@ def main(tier: str, seed: int) -> int:
 def replay(doc: Dict[str, Any]) -> int:
     from mc import c02_core
 
+    if doc.get("replay", doc).get("kind") == "shared":
+        from mc import c02_shared
+
+        return int(c02_shared.replay_case(doc.get("replay", doc)))
     return int(c02_core.replay_case(doc))
